@@ -359,12 +359,14 @@ def run_spec(spec):
     def sample(l, k):
         return l if len(l) <= k else rng.sample(l, k)
 
-    for pre, post in sample(log["update"], 8):
+    for pre, post in sample(log["update"], 40):
         lit = lambda st: clist([f"({cq(a)}, {cq(b)}, {cz(c)})" for a, b, c in st])
-        out["update"].append((f"({lit(pre)}, {lit(post)})", {"path_before": pre, "path_after": post}))
+        leaf = pre[-1]
+        cat = f"depth{min(len(pre), 4)}:" + ("leaf-revisited" if leaf[2] > 0 else "leaf-pm1" if abs(leaf[0]) == 1 else "leaf-new")
+        out["update"].append((f"({lit(pre)}, {lit(post)})", {"path_before": pre, "path_after": post, "cat": cat}))
     size = spec["size"]
     n = encoding.n_moves_for_size(size)
-    for e in sample([e for e in log["populate"] if not e["had_children"]], 6):
+    for e in sample([e for e in log["populate"] if not e["had_children"]], 30):
         cutoff, alpha, mix = e["cfg"]
         cfg = f"({cq(c08.f32(cutoff))}, {copt(None if alpha is None else cq(alpha))}, {cq(mix)})"
         ev = None if e["eval"] is None else f"({c08.c_qvec(e['eval'][0][: n + 2])}, {cq(e['eval'][1])})"
@@ -376,8 +378,12 @@ def run_spec(spec):
         out["populate"].append((f"({cfg}, {pos}, {cbool(e['is_root'])}, {copt(ev)}, {copt(nz)}, "
                                 f"({cq(e['v_zero'])}, {copt(kids)}, {copt(probs)}))",
                                 {"position": c08.j_snap(e["pos"]), "is_root": e["is_root"], "v_zero": e["v_zero"],
-                                 "n_children": None if e["children"] is None else len(e["children"])}))
-    for en in sample([x for x in trace["rec"].policy_log if x["stats"] is not None], 8):
+                                 "n_children": None if e["children"] is None else len(e["children"]),
+                                 "cat": ("terminal" if e["children"] is None else
+                                         "root-with-noise" if e["noise"] is not None else
+                                         "root" if e["is_root"] else
+                                         "one-child" if len(e["children"]) == 1 else "expanded") + f":size{size}"}))
+    for en in sample([x for x in trace["rec"].policy_log if x["stats"] is not None], 40):
         st = en["stats"]
         prior = None if en["prior"] is None else [float(x) for x in en["prior"].tolist()]
         kids = clist([f"({cq(v)}, {cz(s)})" for s, v in st["kids"]])
@@ -386,27 +392,71 @@ def run_spec(spec):
         out["policy"].append((f"({cq(st['v_zero'])}, {cz(st['N'])}, {copt(None if prior is None else cql(prior))}, "
                               f"(Some {kids}), {f64_bits(en['c'])}, {copt(obs)}, false)",
                               {"N": st["N"], "v_zero": st["v_zero"], "children_visits_value": st["kids"][:20], "c": en["c"],
-                               "solver_called": call is not None}))
+                               "solver_called": call is not None,
+                               "cat": ("asked-again:" if en.get("query") else "descent:") +
+                                      ("children-unvisited" if all(k[0] == 0 for k in st["kids"]) else
+                                       "children-all-visited" if all(k[0] > 0 for k in st["kids"]) else "children-mixed") +
+                                      (":one-child" if len(st["kids"]) == 1 else "")}))
     return out
 
 
 def volumes(run):
     if run.quick:
-        return dict(count=28, sizes=[3, 4], max_budget=30, transformer=0, smash=(2, 0), near_terminal=((3, 2),), stacked=0)
+        return dict(count=14, sizes=[3, 4], max_budget=24, transformer=0, smash=(1, 0), near_terminal=((3, 3),), stacked=0)
     return dict(count=300, sizes=[3, 4, 3, 4, 5], max_budget=80, transformer=1, smash=(10, 2), near_terminal=((3, 20), (4, 10)),
                 stacked=1)
+
+
+QUICK_TARGET = {"update": 150, "policy": 150, "populate": 120}
+
+
+def balanced(items, target):
+    """at most `target` recorded calls, round-robin over the categories (terminal / expanded / root with noise / ...),
+    the smaller literals first inside a category"""
+    groups = {}
+    for it in items:
+        groups.setdefault(it[1]["cat"], []).append(it)
+    for g in groups.values():
+        g.sort(key=lambda it: len(it[0]))
+    out, k = [], 0
+    while len(out) < target and any(k < len(g) for g in groups.values()):
+        for name in sorted(groups):
+            if k < len(groups[name]) and len(out) < target:
+                out.append(groups[name][k])
+        k += 1
+    return out
 
 
 def correspondence(run):
     core.setup_impl(ext=True, shims=True)
     import torch
+    from concurrent.futures import ThreadPoolExecutor
     torch.set_num_threads(1)
+    fams = {"update": ("list (Q * Q * Z) * list (Q * Q * Z)", "updchk"),
+            "policy": ("(Q * Z * option (list Q) * option (list (Q * Z))) * Z * option (Z * list Q) * bool", "ppchk"),
+            "populate": ("(Q * option Q * Q) * position * bool * option (list Q * Q) * option (list Q) * "
+                         "(Q * option (list (Z * list Z)) * option (list Q))", "popchk")}
     # (a) the semantics library
-    sem = sem_cases(run.rng, 700 if run.quick else 7000)
-    cs = core.Cases(ID, "sem", HEADER, "semcase", "semchk", shard=400)
+    sem = sem_cases(run.rng, 420 if run.quick else 7000)
+    cases = {"sem": core.Cases(ID, "sem", HEADER, "semcase", "semchk", shard=(60 if run.quick else 400))}
     for term, meta in sem:
-        cs.add(term, meta)
-    failing, shard_fail, nshards = cs.run()
+        cases["sem"].add(term, meta)
+    # (b) the generated functions on recorded calls
+    specs = c08.gen_specs(run, **volumes(run))
+    results = [r for r in c08.pmap(run_spec, specs) if not r["crash"]]
+    cats = {}
+    for fam, (ctype, chk) in fams.items():
+        items = [(term, dict(meta, spec=res["spec"], function=fam)) for res in results for term, meta in res[fam]]
+        if run.quick:
+            items = balanced(items, QUICK_TARGET[fam])
+        cats[fam] = Counter(m["cat"] for _, m in items)
+        cs = core.Cases(ID, fam, HEADER, ctype, chk, shard=(12 if run.quick else 60) if fam != "populate" else (8 if run.quick else 25))
+        for term, meta in items:
+            cs.add(term, meta)
+        cases[fam] = cs
+    with ThreadPoolExecutor(max_workers=4) as ex:      # the four families side by side (each runs its shards in parallel)
+        outs = dict(zip(cases, ex.map(lambda c: c.run(), cases.values())))
+    failing, shard_fail, nshards = outs["sem"]
     run.oblige(f"correspondence:MctsSem.v against CPython / torch ({nshards} shards)", not shard_fail, str(shard_fail)[:1500])
     ops = Counter(m["op"] for _, m in sem)
     run.count(len(sem), len({t for t, _ in sem}),
@@ -416,27 +466,16 @@ def correspondence(run):
         run.violation(f"sem-{meta['op']}-{abs(hash(str(meta))) % 10 ** 8}",
                       {"clause": "model/MctsSem.v disagrees with the interpreter (the trusted semantics is wrong, not the code)",
                        "input": meta}, found_input=False)
-    # (b) the generated functions on recorded calls
-    specs = c08.gen_specs(run, **volumes(run))
-    results = c08.pmap(run_spec, specs)
-    fams = {"update": ("list (Q * Q * Z) * list (Q * Q * Z)", "updchk"),
-            "policy": ("(Q * Z * option (list Q) * option (list (Q * Z))) * Z * option (Z * list Q) * bool", "ppchk"),
-            "populate": ("(Q * option Q * Q) * position * bool * option (list Q * Q) * option (list Q) * "
-                         "(Q * option (list (Z * list Z)) * option (list Q))", "popchk")}
-    for fam, (ctype, chk) in fams.items():
-        cs = core.Cases(ID, fam, HEADER, ctype, chk, shard=(60 if fam != "populate" else 25))
-        for res in results:
-            if res["crash"]:
-                continue
-            for term, meta in res[fam]:
-                cs.add(term, dict(meta, spec=res["spec"], function=fam))
-        failing, shard_fail, nshards = cs.run()
+    for fam in fams:
+        cs = cases[fam]
+        failing, shard_fail, nshards = outs[fam]
         run.oblige(f"correspondence:gen/MctsGen.v {fam} against the implementation ({nshards} shards, {len(cs)} recorded calls)",
                    not shard_fail, str(shard_fail)[:1500])
         run.count(len(cs), len(set(cs.terms)),
                   f"one evaluation = one recorded call of {fam} re-computed by the generated function inside Coq and "
-                  "compared with what the implementation did; distinct by literal",
-                  [{k: v for k, v in m.items() if k != "spec"} for m in cs.metas[:2]], None, label=fam)
+                  "compared with what the implementation did (calls chosen round-robin over the categories shown); "
+                  "distinct by literal",
+                  [{k: v for k, v in m.items() if k != "spec"} for m in cs.metas[:2]], dict(cats[fam]), label=fam)
         for meta in failing[:3]:
             run.violation(f"gen-{fam}-{c08.spec_key(meta['spec'])}",
                           {"clause": f"the function generated from the source ({fam}) and the implementation disagree on a "
